@@ -490,10 +490,27 @@ OP(ep_tab) {
 }
 
 /* ---- md / bc / rand ---- */
-OP(md_kdf) { W(md_kdf(buf, 100, msg, msg_len)); out_bytes(buf, 100); }
-OP(md_mgf) { W(md_mgf(buf, 100, msg, msg_len)); out_bytes(buf, 100); }
+/* derived keys go into heap blocks of exactly the requested length (1..200 bytes), so that a write past the
+ * requested length is visible to the sanitizer */
+OP(md_kdf) {
+	size_t kl = 1 + (size_t)(B[5]->dp[0] >> 8) % 200;
+	uint8_t *o = (uint8_t *)sim_sys_malloc(kl);
+	W(md_kdf(o, kl, msg, msg_len)); out_bytes(o, kl);
+	sim_sys_free(o);
+}
+OP(md_mgf) {
+	size_t kl = 1 + (size_t)(B[5]->dp[0] >> 8) % 200;
+	uint8_t *o = (uint8_t *)sim_sys_malloc(kl);
+	W(md_mgf(o, kl, msg, msg_len)); out_bytes(o, kl);
+	sim_sys_free(o);
+}
 OP(md_hmac) { W(md_hmac(buf, msg, msg_len, msg, 20)); out_bytes(buf, RLC_MD_LEN); }
-OP(md_xmd) { W(md_xmd(buf, 130, msg, msg_len, (const uint8_t *)"DST", 3)); out_bytes(buf, 130); }
+OP(md_xmd) {
+	size_t kl = 1 + (size_t)(B[5]->dp[0] >> 8) % 200;
+	uint8_t *o = (uint8_t *)sim_sys_malloc(kl);
+	W(md_xmd(o, (int)kl, msg, (int)msg_len, (const uint8_t *)"DST", 3)); out_bytes(o, kl);
+	sim_sys_free(o);
+}
 OP(bc_aes_cbc) {
 	size_t ol = sizeof(buf), ol2 = sizeof(buf2);
 	int r = 0, r2 = 0;
